@@ -7,8 +7,14 @@ package llrp
 // reflection, driven only by the pinned layout table spec/llrp_layout.json ($VERIF_LAYOUT).
 //
 //   enc <tree>        -> ok <hex> | err | panic
-//   dec <cid> <hex>   -> ok <tree> | err | panic
-//   rt <tree>         -> ok <hex> <tree-after-decode> <hex-after-reencode> | err | panic
+//   dec <cid> <hex>   -> ok <tree> | alias <tree after the input buffer was overwritten> | err | panic
+//   rt <tree>         -> ok|alias|encalias|pmarshal <hex> <tree-after-decode> <hex-after-reencode> | err | panic
+//                        (values, not views: the decoder's input buffer is overwritten BEFORE the decoded value is printed and
+//                        re-encoded, `alias` = the decoded value changed with it; the encoder's returned bytes are overwritten and the
+//                        value encoded again, `encalias` = the value or its later encoding changed, or a later Marshal changed bytes
+//                        returned earlier; `pmarshal` = a parameter's exported MarshalBinary is not its encoding minus the header)
+//   seq <tree1>;<tree2> -> ok <tree1 after>\t<tree2> | encalias | err | panic   (both encodings decoded one after the other through ONE buffer)
+//   dinto <tree0>;<tree> -> ok <tree of the receiver> | err | panic     (UnmarshalBinary of tree's encoding into a receiver holding tree0)
 //   json <tree>       -> ok <tree-after-json-roundtrip> | err | panic
 //   tojson <tree>     -> ok <hex of the text json.Marshal produces, verbatim> | err | panic
 //   penc <n> <rounds> <tree>;<tree>;…        -> ok <distinct results per item, `|`-joined>;…   (concurrent marshal)
@@ -170,7 +176,8 @@ func vLoadRegistry(path string) (*vreg, error) {
 }
 
 // parameters that cannot be found by walking from the messages would be listed here:
-//   "AntennaID": new(AntennaID),
+//
+//	"AntennaID": new(AntennaID),
 var vExtraParams = map[string]interface{}{}
 
 // selfCheck verifies that every container can be instantiated, has the methods the worker uses,
@@ -774,43 +781,73 @@ func vEncode(c *vcont, p reflect.Value) ([]byte, error) {
 	return append([]byte(nil), b.Bytes()...), nil
 }
 
-// vDecode: parameters take the full bytes including header; the header is checked and stripped
+// vBody: parameters take the full bytes including header; the header is checked and stripped
 // here the way the parent decoders do (TLV: data[4:len], TV: data[1:]).
-func (r *vreg) vDecode(c *vcont, data []byte) (reflect.Value, error) {
-	p := reflect.New(c.T)
-	u, ok := p.Interface().(encoding.BinaryUnmarshaler)
-	if !ok {
-		return p, vBad{"no UnmarshalBinary: " + c.L.Name}
-	}
+func vBody(c *vcont, data []byte) ([]byte, error) {
 	body := data
 	if !c.L.IsMsg {
 		if c.L.IsTLV {
 			if len(data) < 4 {
-				return p, fmt.Errorf("short TLV")
+				return nil, fmt.Errorf("short TLV")
 			}
 			typ := int(data[0])<<8 | int(data[1])
 			ln := int(data[2])<<8 | int(data[3])
 			if typ != c.L.TypeID {
-				return p, fmt.Errorf("type %d, expected %d", typ, c.L.TypeID)
+				return nil, fmt.Errorf("type %d, expected %d", typ, c.L.TypeID)
 			}
 			if ln < 4 || ln != len(data) {
-				return p, fmt.Errorf("TLV length %d, have %d bytes", ln, len(data))
+				return nil, fmt.Errorf("TLV length %d, have %d bytes", ln, len(data))
 			}
 			body = data[4:ln]
 		} else {
 			if len(data) < 1 || int(data[0]) != 0x80|c.L.TypeID {
-				return p, fmt.Errorf("bad TV header")
+				return nil, fmt.Errorf("bad TV header")
 			}
 			body = data[1:]
 		}
 	}
-	// give the decoder its own exact-capacity copy so that an over-read shows as a panic
+	return body, nil
+}
+
+// vDecodeBuf decodes into a fresh value and also returns the buffer that was handed to UnmarshalBinary
+// (the decoder's own exact-capacity copy of the body, so that an over-read shows as a panic).
+func (r *vreg) vDecodeBuf(c *vcont, data []byte) (reflect.Value, []byte, error) {
+	p := reflect.New(c.T)
+	u, ok := p.Interface().(encoding.BinaryUnmarshaler)
+	if !ok {
+		return p, nil, vBad{"no UnmarshalBinary: " + c.L.Name}
+	}
+	body, err := vBody(c, data)
+	if err != nil {
+		return p, nil, err
+	}
 	cp := make([]byte, len(body))
 	copy(cp, body)
 	if err := u.UnmarshalBinary(cp[:len(cp):len(cp)]); err != nil {
-		return p, err
+		return p, cp, err
 	}
-	return p, nil
+	return p, cp, nil
+}
+
+func (r *vreg) vDecode(c *vcont, data []byte) (reflect.Value, error) {
+	p, _, err := r.vDecodeBuf(c, data)
+	return p, err
+}
+
+// vScribble changes every byte of b: whoever still looks at b sees different data
+func vScribble(b []byte) {
+	for i := range b {
+		b[i] ^= 0xFF
+	}
+}
+
+// vMarshalOwn: the exported MarshalBinary (messages: the payload; parameters: the encoding without its header)
+func vMarshalOwn(p reflect.Value) ([]byte, error) {
+	m, ok := p.Interface().(encoding.BinaryMarshaler)
+	if !ok {
+		return nil, vBad{"no MarshalBinary"}
+	}
+	return m.MarshalBinary()
 }
 
 func (r *vreg) handle(line string) (ans string) {
@@ -862,7 +899,7 @@ func (r *vreg) handle(line string) (ans string) {
 		if err != nil {
 			return "bad hex"
 		}
-		p, err := r.vDecode(c, data)
+		p, buf, err := r.vDecodeBuf(c, data)
 		if err != nil {
 			return fail(err)
 		}
@@ -870,9 +907,22 @@ func (r *vreg) handle(line string) (ans string) {
 		if err != nil {
 			return fail(err)
 		}
+		// the input belongs to the caller: once it is overwritten the decoded value must still be the same
+		vScribble(buf)
+		tree2, err := r.toTree(c, p)
+		if err != nil {
+			return fail(err)
+		}
+		if tree2 != tree {
+			return "alias " + tree2
+		}
 		return "ok " + tree
 	case "rt":
 		c, p, err := r.fromTree(rest)
+		if err != nil {
+			return fail(err)
+		}
+		t0, err := r.toTree(c, p)
 		if err != nil {
 			return fail(err)
 		}
@@ -880,10 +930,22 @@ func (r *vreg) handle(line string) (ans string) {
 		if err != nil {
 			return fail(err)
 		}
-		q, err := r.vDecode(c, b1)
+		h1 := hex.EncodeToString(b1)
+		own1, err := vMarshalOwn(p)
 		if err != nil {
 			return fail(err)
 		}
+		ho1 := hex.EncodeToString(own1)
+		q, buf, err := r.vDecodeBuf(c, b1)
+		if err != nil {
+			return fail(err)
+		}
+		t1, err := r.toTree(c, q)
+		if err != nil {
+			return fail(err)
+		}
+		// values, not views (decoder): the buffer handed to UnmarshalBinary is the caller's; overwrite it, THEN look at the value
+		vScribble(buf)
 		tree, err := r.toTree(c, q)
 		if err != nil {
 			return fail(err)
@@ -892,7 +954,126 @@ func (r *vreg) handle(line string) (ans string) {
 		if err != nil {
 			return fail(err)
 		}
-		return "ok " + hex.EncodeToString(b1) + " " + tree + " " + hex.EncodeToString(b2)
+		h2 := hex.EncodeToString(b2)
+		st := "ok"
+		if tree != t1 {
+			st = "alias"
+		} else if ho1 != h1[2*c.L.HeaderSize:] {
+			st = "pmarshal"
+		} else {
+			// values, not views (encoder): a later Marshal must not touch bytes returned earlier, and overwriting
+			// returned bytes must change neither the value nor what it encodes to afterwards
+			own2, err := vMarshalOwn(q)
+			if err != nil {
+				return fail(err)
+			}
+			// ... nor must the Marshal of ANOTHER value of the type (its zero value) in between
+			// (the zero value need not be well-formed — an EPC96 without its 12 bytes — so its Marshal may fail or panic: ignored)
+			z := reflect.New(c.T)
+			var bz, oz []byte
+			func() {
+				defer func() { _ = recover() }()
+				bz, _ = vEncode(c, z)
+				oz, _ = vMarshalOwn(z)
+			}()
+			if hex.EncodeToString(b1) != h1 || hex.EncodeToString(own1) != ho1 || hex.EncodeToString(b2) != h2 {
+				st = "encalias"
+			}
+			vScribble(bz)
+			vScribble(oz)
+			vScribble(b1)
+			vScribble(b2)
+			vScribble(own1)
+			vScribble(own2)
+			tp, err := r.toTree(c, p)
+			if err != nil {
+				return fail(err)
+			}
+			b3, err := vEncode(c, p)
+			if err != nil {
+				return fail(err)
+			}
+			own3, err := vMarshalOwn(p)
+			if err != nil {
+				return fail(err)
+			}
+			if tp != t0 || hex.EncodeToString(b3) != h1 || hex.EncodeToString(own3) != ho1 {
+				st = "encalias"
+			}
+		}
+		return st + " " + h1 + " " + tree + " " + h2
+	case "seq", "dinto":
+		it := strings.SplitN(rest, ";", 2)
+		if len(it) != 2 {
+			return "bad " + cmd + " needs <tree>;<tree>"
+		}
+		c1, p1, err := r.fromTree(strings.TrimSpace(it[0]))
+		if err != nil {
+			return fail(err)
+		}
+		c2, p2, err := r.fromTree(strings.TrimSpace(it[1]))
+		if err != nil {
+			return fail(err)
+		}
+		e1, err := vEncode(c1, p1)
+		if err != nil {
+			return fail(err)
+		}
+		he1 := hex.EncodeToString(e1)
+		e2, err := vEncode(c2, p2)
+		if err != nil {
+			return fail(err)
+		}
+		if hex.EncodeToString(e1) != he1 {
+			return "encalias" // encoding the second value changed the bytes returned for the first
+		}
+		body1, err := vBody(c1, e1)
+		if err != nil {
+			return fail(err)
+		}
+		body2, err := vBody(c2, e2)
+		if err != nil {
+			return fail(err)
+		}
+		if cmd == "dinto" {
+			// UnmarshalBinary on a receiver that already holds a value (recorded, not judged: see notes/codec-harness.md)
+			if c1 != c2 {
+				return "bad dinto needs two values of one container"
+			}
+			cp := append(make([]byte, 0, len(body2)), body2...)
+			if err := p1.Interface().(encoding.BinaryUnmarshaler).UnmarshalBinary(cp); err != nil {
+				return fail(err)
+			}
+			tree, err := r.toTree(c1, p1)
+			if err != nil {
+				return fail(err)
+			}
+			return "ok " + tree
+		}
+		// one receive buffer, two messages one after the other: the first value is looked at after the second arrived
+		n := len(body1)
+		if len(body2) > n {
+			n = len(body2)
+		}
+		buf := make([]byte, n)
+		q1, q2 := reflect.New(c1.T), reflect.New(c2.T)
+		copy(buf, body1)
+		if err := q1.Interface().(encoding.BinaryUnmarshaler).UnmarshalBinary(buf[:len(body1)]); err != nil {
+			return fail(err)
+		}
+		copy(buf, body2)
+		if err := q2.Interface().(encoding.BinaryUnmarshaler).UnmarshalBinary(buf[:len(body2)]); err != nil {
+			return fail(err)
+		}
+		ta, err := r.toTree(c1, q1)
+		if err != nil {
+			return fail(err)
+		}
+		tb, err := r.toTree(c2, q2)
+		if err != nil {
+			return fail(err)
+		}
+		return "ok " + ta + "\t" + tb
 	case "json":
 		c, p, err := r.fromTree(rest)
 		if err != nil {
